@@ -40,9 +40,11 @@ def main():
 
     for job in jobs:
         if job.startswith('NEW:'):
-            _, pid, k = job.split(':')
+            parts = job.split(':')
+            pid, k = parts[1], parts[2]
+            tag = parts[3] if len(parts) > 3 else 'sm'
             src = '/tmp/mutout-%s/m%s' % (pid, k)
-            name = '%s-sm%s' % (pid, k)
+            name = '%s-%s%s' % (pid, tag, k)
             d = os.path.join(ROOT, 'seeded', name)
             if not os.path.exists(os.path.join(src, 'patch.diff')):
                 print(name, 'no patch', flush=True); continue
